@@ -86,7 +86,7 @@ def table_of(b, t):
     return d
 
 
-def run(rep, tier="quick", replay=None, evidence_dir=None):
+def run(rep, tier="quick", replay=None, evidence_dir=None, collect_only=False):
     prog = Program(factsmod.extract())
     rep.rule("C20.R1", "parse_list returns schemas in input order (loop over input_order, no map iteration)")
     rep.rule("C20.R2", "duplicate full names among the inputs are rejected before parsing")
@@ -254,6 +254,8 @@ def run(rep, tier="quick", replay=None, evidence_dir=None):
         if s not in seen_sites:
             rep.notes.append("table entry no longer present: " + s)
 
+    if collect_only:
+        return rep
     rep.floor("C20", "obligations", len(rep.obligations), 22)
     rep.not_decided = ["confluence of the on-demand parse: that every drain order of input_schemas yields equal definitions (needs execution over permutations and hash seeds)",
                        "that values decode identically across orderings"]
